@@ -140,3 +140,95 @@ Theorem C05_checker_reflects : forall vf sent provs D contacted delivered closed
   closed = Some (max_list (map (finish_time D) provs)).
 Proof. exact checker_reflects. Qed.
 Print Assumptions C05_checker_reflects.
+
+(* ---- composition with C02, C03 and C19 (proofs/Compose_bidder.v) -------------------------------------
+   In the theorems above the signer is an oracle pair.  Below it is the signer model itself, for an
+   arbitrary hash function K and crypto library cr:
+     construct := Signer.construct_bid K cr on the call's five values, put on the wire
+                  (Compose_bidder.signer_construct / wire_bid);
+     verify    := Signer.verify_preconf K cr on the decoded reply (NoPanic_proofs.conv_commitment:
+                  an empty bytes field reads as nil). *)
+From MevVerif Require model.Eip712 model.Signer model.BidderApi model.Rules proofs.NoPanic_proofs proofs.Compose_bidder.
+
+(* C05 o C02 (C02_roundtrip_bid).  For every call of SendBid: the bid offered is ConstructSignedBid's
+   result, written unchanged on every stream that opened; under the recover-after-sign premise of
+   C02_roundtrip, and for a hash function without empty images (Keccak-256 has 32-byte images), the
+   message as a provider decodes it IS that result and verifies to the node's own address.
+   Non-vacuity: Compose_bidder.ex_premises, Compose_bidder.ex_bidder_path. *)
+Theorem C05_offered_bid_signed : forall (K : bytes -> bytes) (cr : Signer.crypto) (pk : bytes),
+  (forall h sg, Signer.sign cr h = Ok sg ->
+     length sg = 65%nat /\ (nth_error sg 64 = Some 0 \/ nth_error sg 64 = Some 1) /\
+     Signer.recover cr h sg = Ok pk /\ Signer.verify_rs cr pk h (firstn 64 sg) = true) ->
+  (forall m, K m <> []) ->
+  forall a view D r,
+    send_bid (Compose_bidder.signer_oracles K cr) a view D = SRun r ->
+    exists b,
+      Signer.construct_bid K cr (a_tx a) (a_amt a) (a_bn a) (a_ds a) (a_de a) = Ok b /\
+      r_sent r = Compose_bidder.wire_bid b /\
+      NoPanic_proofs.conv_bid (r_sent r) = b /\
+      Signer.verify_bid K cr (NoPanic_proofs.conv_bid (r_sent r)) = Ok (Signer.addr_of cr pk) /\
+      (forall ad ws, In (ad, ws) (r_contacted r) -> ws = [] \/ ws = [r_sent r]).
+Proof. exact Compose_bidder.offered_bid_signed. Qed.
+Print Assumptions C05_offered_bid_signed.
+
+(* C05 o C02 (C02_sound_commitment).  C05_surface with verify := the signer model's
+   VerifyPreConfirmation (it does not read ProviderAddress, so the premise of C05_surface_verified is
+   discharged): every delivered value embeds exactly the bid sent, arrived before the deadline, and
+   presents a non-empty digest that is the commitment hash over the sent bid's fields, digest and
+   signature, the sent bid itself verifies, and the 65-byte commitment signature recovers (v brought from
+   27/28 to 0/1) to a key that passes the low-S check and whose address is the reported ProviderAddress. *)
+Theorem C05_surface_signed : forall (K : bytes -> bytes) (cr : Signer.crypto) o a view D r,
+  (forall c, verify o c = Signer.verify_preconf K cr (NoPanic_proofs.conv_commitment c)) ->
+  send_bid o a view D = SRun r ->
+  forall t c, In (t, c) (r_delivered r) ->
+    let sent := NoPanic_proofs.conv_bid (r_sent r) in
+    c_bid c = Some (r_sent r) /\ t < D /\
+    exists d sig,
+      c_dig c = d /\ c_sig c = sig /\ d <> [] /\
+      (exists a', Signer.verify_bid K cr sent = Ok a') /\
+      Eip712.commitment_hash K {| Eip712.c_bid := Some sent; Eip712.c_dig := None;
+                                  Eip712.c_sig := None; Eip712.c_prov := [] |} = Ok d /\
+      length sig = 65%nat /\
+      exists v pk, nth_error sig 64 = Some v /\
+        Signer.recover cr d (firstn 64 sig ++ [Signer.v_to01 v]) = Ok pk /\
+        Signer.verify_rs cr pk d (firstn 64 sig) = true /\ c_prov c = Signer.addr_of cr pk.
+Proof. exact Compose_bidder.surface_signed. Qed.
+Print Assumptions C05_surface_signed.
+
+(* C05 o C02 o C03 (C03_commitment).  When the sent bid lies in the EIP-712 domain (amount below 2^64,
+   non-negative int64 numbers) the digest of every delivered commitment is the generic EIP-712 hash of
+   the PreConfCommitment message made of the sent bid's values and the lowercase hex of its digest and
+   signature. *)
+Theorem C05_surface_signed_eip712 : forall (K : bytes -> bytes) (cr : Signer.crypto) o a view D r,
+  (forall c, verify o c = Signer.verify_preconf K cr (NoPanic_proofs.conv_commitment c)) ->
+  send_bid o a view D = SRun r ->
+  forall A, Eip712.parse_amount (b_amt (r_sent r)) = Some A -> (0 <= A < 2 ^ 64)%Z ->
+  (0 <= b_bn (r_sent r) < 2 ^ 63)%Z -> (0 <= b_ds (r_sent r) < 2 ^ 63)%Z -> (0 <= b_de (r_sent r) < 2 ^ 63)%Z ->
+  forall t c, In (t, c) (r_delivered r) ->
+    let s := r_sent r in
+    c_dig c = Eip712.eip712_commitment K (b_tx s) (Z.to_N A) (Z.to_N (b_bn s)) (Z.to_N (b_ds s))
+                                       (Z.to_N (b_de s)) (b_dig s) (b_sig s).
+Proof. exact Compose_bidder.surface_signed_eip712. Qed.
+Print Assumptions C05_surface_signed_eip712.
+
+(* C19 o C05 o C03 o C02, end to end.  For a request accepted by the bidder API rules (numbers Go int64
+   values), with both signer oracles instantiated: every commitment SendBid surfaces embeds a bid with
+   the request's values whose digest is the EIP-712 bid hash of those values, and its own digest is the
+   EIP-712 commitment hash over those values, that bid digest and the node's bid signature. *)
+Theorem C05_accepted_request_commitments : forall (K : bytes -> bytes) (cr : Signer.crypto) (rq : BidderApi.request),
+  Rules.bidder_bid_ok (BidderApi.r_txs rq) (BidderApi.r_amount rq) (BidderApi.r_bn rq) (BidderApi.r_ds rq)
+                      (BidderApi.r_de rq) = true ->
+  (BidderApi.r_bn rq <= Rules.int64_max)%Z -> (BidderApi.r_ds rq <= Rules.int64_max)%Z ->
+  (BidderApi.r_de rq <= Rules.int64_max)%Z ->
+  forall view D r,
+    send_bid (Compose_bidder.signer_oracles K cr) (Compose_bidder.args_of (BidderApi.forward rq)) view D = SRun r ->
+    forall t c, In (t, c) (r_delivered r) ->
+      exists b, c_bid c = Some b /\
+        b_tx b = join 44 (BidderApi.r_txs rq) /\ b_amt b = BidderApi.r_amount rq /\
+        b_bn b = BidderApi.r_bn rq /\ b_ds b = BidderApi.r_ds rq /\ b_de b = BidderApi.r_de rq /\
+        b_dig b = Compose_bidder.req_digest K rq /\
+        c_dig c = Eip712.eip712_commitment K (join 44 (BidderApi.r_txs rq)) (dec_value (BidderApi.r_amount rq))
+                    (Z.to_N (BidderApi.r_bn rq)) (Z.to_N (BidderApi.r_ds rq)) (Z.to_N (BidderApi.r_de rq))
+                    (Compose_bidder.req_digest K rq) (b_sig b).
+Proof. exact Compose_bidder.accepted_commitments. Qed.
+Print Assumptions C05_accepted_request_commitments.
